@@ -169,7 +169,14 @@ def run(ctx):
            'the computed CRC5 is compared with rx_data[3:8] (found %s)' % other.canon())
     def site_assign(cls_, mod_, lhs, sig, w, lo, hi, key):
         irx = ctx.ir(cls_, mod_, allow_opaque=True)
-        ds = [a for a in irx.assigns if a.lhs.canon() == lhs]
+        if lhs is None:
+            # by role: the local 5-bit register computed (not merely sliced) from the header word
+            ds = [a for a in irx.assigns if isinstance(a.lhs, E) and a.lhs.op == 'sig' and isinstance(a.rhs, E) and
+                  getattr(irx.signals.get(a.lhs.canon()), 'w', None) == 5 and a.rhs.sigs() == {sig} and a.rhs.op != 'slice'
+                  and not a.lhs.canon().startswith('self.')]
+            lhs = 'the local 5-bit register computed from ' + sig
+        else:
+            ds = [a for a in irx.assigns if a.lhs.canon() == lhs]
         ctx.need(ds, '%s assignment to %s' % (cls_, lhs))
         for a in ds[:1]:
             check_site(ctx, key, a.rhs, [(sig, lo, hi, w)], a.loc)
@@ -177,7 +184,7 @@ def run(ctx):
     site_assign('RawPacketTransmitter', 'usb3.link.transmitter', 'self.source.payload[27:32]', 'self.source.payload', 32, 16, 27,
                 'RawPacketTransmitter.dw3-crc5')
     for cls_, mod_ in (('RawHeaderPacketReceiver', 'usb3.link.receiver'), ('DataPacketReceiver', 'usb3.link.data')):
-        irx = site_assign(cls_, mod_, 'expected_crc5', 'self.sink.payload', 32, 16, 27, cls_ + '.dw3-crc5')
+        irx = site_assign(cls_, mod_, None, 'self.sink.payload', 32, 16, 27, cls_ + '.dw3-crc5')
         fld = [a for a in irx.assigns if a.lhs.canon().endswith('.crc5') and a.rhs.canon() == 'self.sink.payload[27:32]']
         ctx.ob('C30.crc5-site', cls_ + '.crc5-field', len(fld) >= 1, fld[0].loc if fld else None,
                'the received CRC5 field is bits 27..31 of DW3')
@@ -212,11 +219,13 @@ def run(ctx):
            'the computed CRC5 is compared with bits 11..15 of the command word (found %s)' % other.canon())
     # ---- register CRCs
     ir16, st = check_register_crc(ctx, 'USBDataPacketCRC', 'usb2.packet', 16, 0x8005, [8, 8])
-    srcs = sorted(sorted(a.rhs.sigs() - {'crc'})[0] for a in st.get(8, []))
+    ctx.need(st.get(8) and all(isinstance(a.lhs, E) and a.lhs.op == 'sig' for a in st[8]), 'byte updates of the USB2 CRC16 register')
+    RUN = st[8][0].lhs.canon()                                  # the running CRC register (whatever it is called)
+    srcs = sorted(sorted(a.rhs.sigs() - {RUN})[0] for a in st.get(8, []))
     ctx.ob('C30.data-input', 'USBDataPacketCRC.inputs', srcs == ['self.rx_data', 'self.tx_data'], None,
            'the two byte updates consume rx_data (under rx_valid) and tx_data (under tx_valid): %s' % srcs)
     for a in st.get(8, []):
-        d = sorted(a.rhs.sigs() - {'crc'})[0]
+        d = sorted(a.rhs.sigs() - {RUN})[0]
         v = d.replace('_data', '_valid')
         ctx.ob('C30.data-input', 'USBDataPacketCRC.%s-valid' % d.split('.')[-1], q.has(a, v), a.loc, 'update with %s only under %s' % (d, v))
     check_register_crc(ctx, 'HeaderPacketCRC', 'usb3.link.crc', 16, 0x100B, [32])
